@@ -1,26 +1,15 @@
 (* EditProofs.v -- C11, part 1: allocation invariant, frames of the allocation operations,
    prune_objects removes exactly the unreachable objects. *)
 From LV Require Import Base.Bytes Model.Obj Model.DocQ Model.PageTree Model.Traverse Model.Edit
-  Spec.RenumberSpec Proofs.RenumberProofsMap Proofs.RenumberProofs Proofs.RenumberProofsTrav.
+  Model.StreamFilt Model.Writer Model.Renumber
+  Spec.RenumberSpec Proofs.RenumberProofsMap Proofs.RenumberProofs Proofs.RenumberProofsTrav
+  Proofs.RenumberProofsDense Proofs.RenumberProofsTop Proofs.RenumberProofsMain.
 
 (* ---------- well-formedness of the state: BTreeMap keys sorted; allocation cursor ---------- *)
 Definition alloc_ok (d : doc) : Prop :=
   forall id, has_obj (d_objects d) id -> (fst id <= d_max_id d)%N.
 
 Definition doc_wf (d : doc) : Prop := sorted_keys (d_objects d).
-
-(* the domain reading of "replace": set_object targets an id that exists or was handed out *)
-Definition op_dom (d : doc) (o : op) : Prop :=
-  match o with
-  | SetObject id _ => (fst id <= d_max_id d)%N
-  | _ => True
-  end.
-
-Fixpoint prog_dom (O : oracles) (d : doc) (ops : list op) : Prop :=
-  match ops with
-  | [] => True
-  | o :: r => op_dom d o /\ prog_dom O (fst (step O d o)) r
-  end.
 
 (* ---------- keys are preserved by the traversals ---------- *)
 Lemma act_loop_keys act : forall fuel m refs index m' refs',
@@ -131,57 +120,303 @@ Proof.
   intro H; inversion H; subst. cbn. apply remove_annot_loop_keys in E. auto.
 Qed.
 
-(* ---------- one step preserves the two invariants ---------- *)
-Lemma step_wf O d o : doc_wf d -> doc_wf (fst (step O d o)).
+(* ---------- key extension: what one step may do to the key set and the cursor ---------- *)
+Definition kx (d d' : doc) : Prop :=
+  (forall x, has_obj (d_objects d') x -> has_obj (d_objects d) x \/ (fst x <= d_max_id d')%N) /\
+  (d_max_id d <= d_max_id d')%N /\
+  (doc_wf d -> doc_wf d').
+
+Lemma kx_refl d : kx d d.
+Proof. split; [auto|]. split; [lia | auto]. Qed.
+
+Lemma kx_trans d1 d2 d3 : kx d1 d2 -> kx d2 d3 -> kx d1 d3.
 Proof.
-  intro S. destruct o as [|x|id x|id|id|]; cbn [step].
-  - destruct (new_object_id d) as [[d' i]|] eqn:E; cbn [fst]; [|exact S].
-    apply new_object_id_spec in E. unfold doc_wf. destruct E as [_ [_ [-> _]]]. exact S.
-  - destruct (add_object d x) as [[d' i]|] eqn:E; cbn [fst]; [|exact S].
-    apply add_object_spec in E. unfold doc_wf. destruct E as [_ [_ [-> _]]]. apply sorted_insert. exact S.
-  - cbn [fst]. unfold doc_wf, set_object. cbn. apply sorted_insert. exact S.
-  - destruct (delete_object d id) as [[d' r]|] eqn:E; cbn [fst]; [|exact S].
-    apply delete_object_keys in E. apply E. exact S.
-  - destruct (remove_annot d id) as [d' ok] eqn:E. cbn [fst].
-    apply remove_annot_keys in E. unfold doc_wf, sorted_keys. destruct E as [-> _]. exact S.
-  - destruct (prune_objects d) as [[d' r]|] eqn:E; cbn [fst]; [|exact S].
-    apply prune_objects_keys in E. apply E. exact S.
+  intros [A1 [B1 C1]] [A2 [B2 C2]]. split; [|split; [lia | auto]].
+  intros x Hx. apply A2 in Hx. destruct Hx as [Hx|Hx]; [|right; lia].
+  apply A1 in Hx. destruct Hx as [Hx|Hx]; [left; exact Hx | right; lia].
 Qed.
 
-Lemma step_alloc O d o : alloc_ok d -> op_dom d o -> alloc_ok (fst (step O d o)).
+Lemma kx_same_keys d d' :
+  map fst (d_objects d') = map fst (d_objects d) -> d_max_id d' = d_max_id d -> kx d d'.
 Proof.
-  intros A Dm. destruct o as [|x|id x|id|id|]; cbn [step].
-  - destruct (new_object_id d) as [[d' i]|] eqn:E; cbn [fst]; [|exact A].
-    apply new_object_id_spec in E. destruct E as [_ [E1 [E2 _]]]. intros y Hy. rewrite E2 in Hy.
-    apply A in Hy. rewrite E1. lia.
-  - destruct (add_object d x) as [[d' i]|] eqn:E; cbn [fst]; [|exact A].
-    apply add_object_spec in E. destruct E as [Ei [E1 [E2 _]]]. intros y Hy. rewrite E2 in Hy.
-    unfold has_obj in Hy. apply keys_insert in Hy. rewrite E1. destruct Hy as [->|Hy].
-    + rewrite Ei. cbn [fst]. lia.
-    + apply A in Hy. lia.
-  - cbn [fst]. intros y Hy. unfold set_object in Hy. cbn in Hy. unfold has_obj in Hy. apply keys_insert in Hy.
-    cbn. destruct Hy as [->|Hy]; [exact Dm | apply A; exact Hy].
-  - destruct (delete_object d id) as [[d' r]|] eqn:E; cbn [fst]; [|exact A].
-    apply delete_object_keys in E. destruct E as [K [M _]]. intros y Hy. rewrite M. apply A. apply K. exact Hy.
-  - destruct (remove_annot d id) as [d' ok] eqn:E. cbn [fst].
-    apply remove_annot_keys in E. destruct E as [K [M _]]. intros y Hy. unfold has_obj in Hy. rewrite K in Hy.
-    rewrite M. apply A. exact Hy.
-  - destruct (prune_objects d) as [[d' r]|] eqn:E; cbn [fst]; [|exact A].
-    apply prune_objects_keys in E. destruct E as [K [M _]]. intros y Hy. rewrite M. apply A. apply K. exact Hy.
+  intros K M. split; [|split].
+  - intros x Hx. left. unfold has_obj in *. rewrite K in Hx. exact Hx.
+  - lia.
+  - unfold doc_wf, sorted_keys. rewrite K. auto.
+Qed.
+
+Lemma kx_with_objs d m : map fst m = map fst (d_objects d) -> kx d (with_objs d m).
+Proof. intro K. apply kx_same_keys; [exact K | reflexivity]. Qed.
+
+Lemma kx_add_object d o d' id : add_object d o = Some (d', id) -> kx d d'.
+Proof.
+  intro E. apply add_object_spec in E. destruct E as [Ei [E1 [E2 _]]]. split; [|split].
+  - intros x Hx. rewrite E2 in Hx. unfold has_obj in Hx. apply keys_insert in Hx. destruct Hx as [->|Hx]; [|left; exact Hx].
+    right. rewrite Ei, E1. cbn [fst]. lia.
+  - lia.
+  - unfold doc_wf. rewrite E2. apply sorted_insert.
+Qed.
+
+Lemma kx_delete_object d id d' r : delete_object d id = Some (d', r) -> kx d d'.
+Proof.
+  intro E. apply delete_object_keys in E. destruct E as [K [M W]]. split; [|split; [lia | exact W]].
+  intros x Hx. left. apply K. exact Hx.
+Qed.
+
+Lemma count_loop_keys : forall fuel m r m' lr, count_loop fuel m r = (m', lr) -> map fst m' = map fst m.
+Proof.
+  induction fuel as [|k IH]; intros m r m' lr H; cbn [count_loop] in H.
+  - destruct r; inversion H; reflexivity.
+  - destruct r as [id|]; [|inversion H; reflexivity].
+    destruct (lookup m id) as [[| | | | | | |pt| |]|]; try (inversion H; reflexivity).
+    destruct (dict_get pt K_Count) as [[| |c| | | | | | |]|]; try (apply IH in H; exact H).
+    destruct (c =? I64_MIN)%Z; [inversion H; reflexivity|].
+    apply IH in H. rewrite H. apply keys_update.
+Qed.
+
+Lemma kx_delete_pages_loop pages : forall nums d d' lr, delete_pages_loop pages nums d = (d', lr) -> kx d d'.
+Proof.
+  induction nums as [|n ns IH]; intros d d' lr H; cbn [delete_pages_loop] in H.
+  - inversion H; subst. apply kx_refl.
+  - destruct (assoc_N pages n) as [pid|]; [|apply IH in H; exact H].
+    destruct (delete_object d pid) as [[d1 [page|]]|] eqn:E.
+    + destruct (count_loop _ _ _) as [m2 r2] eqn:Ec. apply count_loop_keys in Ec.
+      apply kx_delete_object in E.
+      assert (K2 : kx d (with_objs d1 m2)).
+      { eapply kx_trans; [exact E|]. apply kx_with_objs. exact Ec. }
+      destruct r2; try (inversion H; subst; exact K2).
+      apply IH in H. eapply kx_trans; eassumption.
+    + apply kx_delete_object in E. apply IH in H. eapply kx_trans; eassumption.
+    + inversion H; subst. apply kx_refl.
+Qed.
+
+Lemma doc_compress_keys df nc m : map fst (StreamFilt.doc_compress df nc m) = map fst m.
+Proof.
+  unfold StreamFilt.doc_compress. rewrite map_map. apply map_ext. intros [i o]. cbn [fst snd].
+  destruct o; try reflexivity. destruct (existsb _ nc); reflexivity.
+Qed.
+
+Lemma decompress_objs_keys O : forall m m' ok, decompress_objs O m = (m', ok) -> map fst m' = map fst m.
+Proof.
+  induction m as [|io m IH]; intros m' ok H; cbn [decompress_objs] in H; [inversion H; reflexivity|].
+  destruct (decompress_objs O m) as [r b] eqn:E. specialize (IH r b eq_refl).
+  destruct (snd io) as [| | | | | | | |sd c|] eqn:Eo; try (inversion H; subst; cbn [map]; congruence).
+  destruct (StreamFilt.decompress _ _ _) as [s|e| |]; inversion H; subst; cbn [map fst]; congruence.
+Qed.
+
+Lemma kx_change_content_stream O d id c : kx d (change_content_stream O d id c).
+Proof.
+  unfold change_content_stream. destruct (lookup (d_objects d) id) as [[| | | | | | | |sd c0|]|]; try apply kx_refl.
+  apply kx_with_objs. apply keys_update.
+Qed.
+
+Lemma set_page_entry_keys m page k v m' : set_page_entry m page k v = Some m' -> map fst m' = map fst m.
+Proof.
+  unfold set_page_entry. destruct (get_object_mut_id m page) as [t|]; [|discriminate].
+  destruct (lookup m t) as [[| | | | | | |td| |]|]; try discriminate.
+  intro H; inversion H; subst. apply keys_update.
+Qed.
+
+Lemma kx_add_page_contents d page c d' r : add_page_contents d page c = (d', r) -> kx d d'.
+Proof.
+  unfold add_page_contents. destruct (get_dictionary (d_objects d) page) as [pd|]; [|intro H; inversion H; apply kx_refl].
+  destruct (add_object d (new_stream c)) as [[d1 nid]|] eqn:E; [|intro H; inversion H; apply kx_refl].
+  apply kx_add_object in E.
+  destruct (set_page_entry _ _ _ _) as [m2|] eqn:Es; intro H; inversion H; subst; [|exact E].
+  eapply kx_trans; [exact E|]. apply kx_with_objs. eapply set_page_entry_keys; exact Es.
+Qed.
+
+Lemma kx_change_page_content O d page c d' r : change_page_content O d page c = (d', r) -> kx d d'.
+Proof.
+  unfold change_page_content. destruct (get_dictionary (d_objects d) page) as [pd|]; [|intro H; inversion H; apply kx_refl].
+  destruct (dict_get pd K_Contents) as [[| | | | | |l| | |i g]|]; try (intro H; inversion H; apply kx_refl).
+  - destruct l as [|x [|y l]].
+    + destruct (add_object d (new_stream c)) as [[d1 nid]|] eqn:E; [|intro H; inversion H; apply kx_refl].
+      apply kx_add_object in E.
+      destruct (set_page_entry _ _ _ _) as [m2|] eqn:Es; intro H; inversion H; subst; [|exact E].
+      eapply kx_trans; [exact E|]. apply kx_with_objs. eapply set_page_entry_keys; exact Es.
+    + destruct x; intro H; inversion H; subst; try apply kx_refl. apply kx_change_content_stream.
+    + destruct (add_object d (new_stream c)) as [[d1 nid]|] eqn:E; [|intro H; inversion H; apply kx_refl].
+      apply kx_add_object in E.
+      destruct (set_page_entry _ _ _ _) as [m2|] eqn:Es; intro H; inversion H; subst; [|exact E].
+      eapply kx_trans; [exact E|]. apply kx_with_objs. eapply set_page_entry_keys; exact Es.
+  - intro H; inversion H; subst. apply kx_change_content_stream.
+Qed.
+
+Lemma loc_set_keys m l o : map fst (loc_set m l o) = map fst m.
+Proof.
+  destruct l as [t|t]; cbn [loc_set]; [apply keys_update|].
+  destruct (lookup m t) as [[| | | | | | |td| |]|]; try reflexivity. apply keys_update.
+Qed.
+
+Lemma kx_gocr d page d' loc : get_or_create_resources d page = (d', loc) -> kx d d'.
+Proof.
+  unfold get_or_create_resources. destruct (get_object (d_objects d) page) as [[| | | | | | |pd| |]|];
+    try (intro H; inversion H; apply kx_refl).
+  destruct (if dict_has pd K_Resources then as_ref (dict_get pd K_Resources) else None); [intro H; inversion H; apply kx_refl|].
+  destruct (get_object_mut_id (d_objects d) page) as [t|]; [|intro H; inversion H; apply kx_refl].
+  destruct (lookup (d_objects d) t) as [[| | | | | | |td| |]|]; try (intro H; inversion H; apply kx_refl).
+  intro H; inversion H; subst. apply kx_with_objs. apply keys_update.
+Qed.
+
+Lemma kx_add_resource follow key d page nm x d' r : add_resource follow key d page nm x = (d', r) -> kx d d'.
+Proof.
+  unfold add_resource. destruct (get_or_create_resources d page) as [d1 loc] eqn:E. apply kx_gocr in E.
+  destruct loc as [loc|]; [|intro H; inversion H; subst; exact E].
+  destruct (loc_get (d_objects d1) loc) as [[| | | | | | |rd| |]|]; try (intro H; inversion H; subst; exact E).
+  set (rd1 := if dict_has rd key then rd else dict_set rd key (ODict [])).
+  assert (K2 : kx d (with_objs d1 (loc_set (d_objects d1) loc (ODict rd1)))).
+  { eapply kx_trans; [exact E|]. apply kx_with_objs. apply loc_set_keys. }
+  destruct (dict_get rd1 key) as [[| | | | | | |xd| |i g]|]; try (intro H; inversion H; subst; exact K2).
+  - intro H; inversion H; subst. eapply kx_trans; [exact E|]. apply kx_with_objs. rewrite !loc_set_keys. reflexivity.
+  - destruct follow; [|intro H; inversion H; subst; exact K2].
+    destruct (get_object _ (i, g)); [|intro H; inversion H; subst; exact K2].
+    destruct (get_object_mut_id _ (i, g)) as [t|]; [|intro H; inversion H; subst; exact K2].
+    destruct (lookup _ t) as [[| | | | | | |xd| |]|]; try (intro H; inversion H; subst; exact K2).
+    intro H; inversion H; subst. eapply kx_trans; [exact E|]. apply kx_with_objs. rewrite keys_update, loc_set_keys. reflexivity.
+Qed.
+
+(* ---------- renumbering: Model/Renumber.v, facts from the C10 development ---------- *)
+Definition rdoc_of (d : doc) : rdoc := {| base := d; max_bookmark_id := 0; bookmarks := []; bm_table := [] |}.
+
+(* the domain of renumbering proved in C10: fewer than 2^32 objects, and outside C10's open known finding
+   (a dangling reference whose number lies in the new range) *)
+Definition renumber_dom (d : doc) : Prop :=
+  fits 1 (rdoc_of d) /\ RenumberProofsTop.KnownClass 1 (rdoc_of d) = false.
+
+Lemma nums_from_bound : forall n s x, In x (nums_from s n) -> (s <= x < s + N.of_nat n)%N.
+Proof.
+  induction n as [|n IH]; intros s x H; cbn [nums_from] in H; [destruct H|].
+  destruct H as [<-|H]; [lia|]. apply IH in H. lia.
+Qed.
+
+Lemma renumber_spec d : doc_wf d -> renumber_dom d ->
+  exists d', renumber d = (d', OUnit) /\ doc_wf d' /\ alloc_ok d'.
+Proof.
+  intros W [F K]. destruct (renumber_dense 1 (rdoc_of d) W F K) as [rd [E [L [Nm [_ [S [_ [Mx M0]]]]]]]].
+  exists (base rd). assert (Er : renumber_objects (rdoc_of d) = Done rd) by exact E.
+  unfold renumber. unfold rdoc_of in Er. rewrite Er. split; [reflexivity|]. split; [exact S|].
+  intros x Hx. unfold has_obj in Hx. apply (in_map fst) in Hx. rewrite Nm in Hx. apply nums_from_bound in Hx.
+  cbn [base rdoc_of] in *.
+  destruct (d_objects d) as [|io m] eqn:Em.
+  - cbn in Hx. lia.
+  - rewrite Mx by discriminate. lia.
+Qed.
+
+(* the domain reading of "replace": set_object targets an id that exists or was handed out;
+   renumbering inside C10's proved domain *)
+Definition op_dom (d : doc) (o : op) : Prop :=
+  match o with
+  | SetObject id _ => (fst id <= d_max_id d)%N
+  | RenumberObjects => renumber_dom d
+  | _ => True
+  end.
+
+Fixpoint prog_dom (O : oracles) (d : doc) (ops : list op) : Prop :=
+  match ops with
+  | [] => True
+  | o :: r => op_dom d o /\ prog_dom O (fst (step O d o)) r
+  end.
+
+Definition is_renumber (o : op) : bool := match o with RenumberObjects => true | _ => false end.
+
+(* ---------- one step ---------- *)
+Lemma step_kx O d o : is_renumber o = false -> op_dom d o -> kx d (fst (step O d o)).
+Proof.
+  intros NR Dm. destruct o; cbn [step]; try discriminate.
+  - destruct (new_object_id d) as [[d' i]|] eqn:E; cbn [fst]; [|apply kx_refl].
+    apply new_object_id_spec in E. destruct E as [_ [E1 [E2 _]]]. split; [|split].
+    + intros x Hx. left. rewrite E2 in Hx. exact Hx.
+    + lia.
+    + unfold doc_wf. rewrite E2. auto.
+  - destruct (add_object d o) as [[d' i]|] eqn:E; cbn [fst]; [|apply kx_refl]. eapply kx_add_object; exact E.
+  - cbn [fst]. split; [|split].
+    + intros x Hx. unfold set_object in Hx. cbn in Hx. unfold has_obj in Hx. apply keys_insert in Hx.
+      destruct Hx as [->|Hx]; [right; cbn; exact Dm | left; exact Hx].
+    + cbn. lia.
+    + unfold doc_wf, set_object. cbn. apply sorted_insert.
+  - destruct (delete_object d id) as [[d' r]|] eqn:E; cbn [fst]; [|apply kx_refl]. eapply kx_delete_object; exact E.
+  - destruct (remove_annot d id) as [d' ok] eqn:E. cbn [fst]. apply remove_annot_keys in E.
+    apply kx_same_keys; tauto.
+  - destruct (prune_objects d) as [[d' r]|] eqn:E; cbn [fst]; [|apply kx_refl].
+    apply prune_objects_keys in E. destruct E as [K [M W]]. split; [|split; [lia | exact W]].
+    intros x Hx. left. apply K. exact Hx.
+  - destruct (delete_pages d nums) as [d' r] eqn:E. cbn [fst]. unfold delete_pages in E.
+    eapply kx_delete_pages_loop; exact E.
+  - cbn [fst]. unfold compress_all. apply kx_with_objs. apply doc_compress_keys.
+  - destruct (decompress_objs O (d_objects d)) as [m ok] eqn:E. cbn [fst]. apply kx_with_objs.
+    eapply decompress_objs_keys; exact E.
+  - cbn [fst]. apply kx_change_content_stream.
+  - destruct (change_page_content O d page c) as [d' r] eqn:E. cbn [fst]. eapply kx_change_page_content; exact E.
+  - destruct (add_page_contents d page c) as [d' r] eqn:E. cbn [fst]. eapply kx_add_page_contents; exact E.
+  - unfold add_to_page_content. destruct (add_page_contents d page (Writer.encode_content ops)) as [d' r] eqn:E.
+    cbn [fst]. eapply kx_add_page_contents; exact E.
+  - destruct (get_or_create_resources d page) as [d' loc] eqn:E. cbn [fst]. eapply kx_gocr; exact E.
+  - unfold add_xobject. destruct (add_resource true K_XObject d page name x) as [d' r] eqn:E. cbn [fst].
+    eapply kx_add_resource; exact E.
+  - unfold add_graphics_state. destruct (add_resource false K_ExtGState d page name g) as [d' r] eqn:E. cbn [fst].
+    eapply kx_add_resource; exact E.
+  - cbn [fst]. apply kx_refl.
+Qed.
+
+Lemma step_wf O d o : doc_wf d -> op_dom d o -> doc_wf (fst (step O d o)).
+Proof.
+  intros W Dm. destruct (is_renumber o) eqn:R.
+  - destruct o; try discriminate. cbn [step]. cbn [op_dom] in Dm.
+    destruct (renumber_spec d W Dm) as [d' [E [W' _]]]. rewrite E. exact W'.
+  - apply (step_kx O d o R Dm). exact W.
+Qed.
+
+Lemma step_alloc O d o : doc_wf d -> alloc_ok d -> op_dom d o -> alloc_ok (fst (step O d o)).
+Proof.
+  intros W A Dm. destruct (is_renumber o) eqn:R.
+  - destruct o; try discriminate. cbn [step]. cbn [op_dom] in Dm.
+    destruct (renumber_spec d W Dm) as [d' [E [_ A']]]. rewrite E. exact A'.
+  - destruct (step_kx O d o R Dm) as [K [M _]]. intros x Hx. apply K in Hx. destruct Hx as [Hx|Hx]; [|exact Hx].
+    apply A in Hx. lia.
 Qed.
 
 (* ---------- the invariants over every program ---------- *)
-Theorem run_ops_wf O : forall ops d, doc_wf d -> doc_wf (run_ops O d ops).
+Theorem run_ops_inv O : forall ops d,
+  doc_wf d -> alloc_ok d -> prog_dom O d ops ->
+  doc_wf (run_ops O d ops) /\ alloc_ok (run_ops O d ops).
 Proof.
-  unfold run_ops. induction ops as [|o ops IH]; intros d S; cbn [fold_left]; [exact S|].
-  apply IH. apply step_wf. exact S.
+  unfold run_ops. induction ops as [|o ops IH]; intros d W A P; cbn [fold_left]; [auto|].
+  destruct P as [P1 P2]. apply IH; [apply step_wf | apply step_alloc | exact P2]; assumption.
 Qed.
 
-Theorem I_alloc_inv O : forall ops d,
-  alloc_ok d -> prog_dom O d ops -> alloc_ok (run_ops O d ops).
+Theorem I_alloc_inv O ops d :
+  doc_wf d -> alloc_ok d -> prog_dom O d ops -> alloc_ok (run_ops O d ops).
+Proof. intros W A P. apply (run_ops_inv O ops d W A P). Qed.
+
+(* only new_object_id and add_object hand out ids *)
+Ltac crush_out H :=
+  repeat match type of H with
+         | context [match ?x with _ => _ end] => destruct x
+         | context [if ?x then _ else _] => destruct x
+         end; try discriminate; try (inversion H; fail).
+
+Lemma step_out_id O d o d' id :
+  step O d o = (d', OId id) -> o = NewObjectId \/ exists x, o = AddObject x.
 Proof.
-  unfold run_ops. induction ops as [|o ops IH]; intros d A P; cbn [fold_left]; [exact A|].
-  destruct P as [P1 P2]. apply IH; [apply step_alloc; assumption | exact P2].
+  intro H. destruct o; [left; reflexivity | right; eexists; reflexivity | | | | | | | | | | | | | | | | ]; exfalso;
+    cbn [step] in H.
+  - inversion H.
+  - destruct (delete_object d id0) as [[d1 r]|]; inversion H.
+  - destruct (remove_annot d id0) as [d1 ok]. destruct ok; inversion H.
+  - destruct (prune_objects d) as [[d1 r]|]; inversion H.
+  - destruct (delete_pages d nums) as [d1 r]. destruct r; inversion H.
+  - unfold renumber in H. destruct (renumber_objects _); inversion H.
+  - inversion H.
+  - destruct (decompress_objs O (d_objects d)) as [m ok]. destruct ok; inversion H.
+  - inversion H.
+  - unfold change_page_content in H. crush_out H.
+  - unfold add_page_contents in H. crush_out H.
+  - unfold add_to_page_content, add_page_contents in H. crush_out H.
+  - destruct (get_or_create_resources d page) as [d1 loc]. crush_out H.
+  - unfold add_xobject, add_resource in H. destruct (get_or_create_resources d page) as [d1 loc]. crush_out H.
+  - unfold add_graphics_state, add_resource in H. destruct (get_or_create_resources d page) as [d1 loc]. crush_out H.
+  - crush_out H.
 Qed.
 
 (* an id handed out is above the cursor, hence (under the invariant) names no existing object -- not
@@ -192,27 +427,11 @@ Theorem alloc_fresh O d o d' id :
   (alloc_ok d -> forall k, has_obj (d_objects d) k -> fst k <> fst id).
 Proof.
   intro H. assert (E : id = ((d_max_id d + 1)%N, 0%N) /\ d_max_id d' = (d_max_id d + 1)%N).
-  { destruct o as [|x|i x|i|i|]; cbn [step] in H.
+  { destruct (step_out_id _ _ _ _ _ H) as [->|[x ->]]; cbn [step] in H.
     - destruct (new_object_id d) as [[d1 i1]|] eqn:E; inversion H; subst. apply new_object_id_spec in E. tauto.
-    - destruct (add_object d x) as [[d1 i1]|] eqn:E; inversion H; subst. apply add_object_spec in E. tauto.
-    - inversion H.
-    - destruct (delete_object d i) as [[d1 r]|]; inversion H.
-    - destruct (remove_annot d i) as [d1 ok]. destruct ok; inversion H.
-    - destruct (prune_objects d) as [[d1 r]|]; inversion H. }
+    - destruct (add_object d x) as [[d1 i1]|] eqn:E; inversion H; subst. apply add_object_spec in E. tauto. }
   destruct E as [-> E2]. cbn [fst snd]. repeat split; try lia.
   intros A k Hk. apply A in Hk. lia.
-Qed.
-
-(* the cursor never moves backwards (no operation of this set lowers it) *)
-Lemma step_max_mono O d o : (d_max_id d <= d_max_id (fst (step O d o)))%N.
-Proof.
-  destruct o as [|x|id x|id|id|]; cbn [step].
-  - destruct (new_object_id d) as [[d' i]|] eqn:E; cbn [fst]; [|lia]. apply new_object_id_spec in E. lia.
-  - destruct (add_object d x) as [[d' i]|] eqn:E; cbn [fst]; [|lia]. apply add_object_spec in E. lia.
-  - cbn. lia.
-  - destruct (delete_object d id) as [[d' r]|] eqn:E; cbn [fst]; [|lia]. apply delete_object_keys in E. lia.
-  - destruct (remove_annot d id) as [d' ok] eqn:E. cbn [fst]. apply remove_annot_keys in E. lia.
-  - destruct (prune_objects d) as [[d' r]|] eqn:E; cbn [fst]; [|lia]. apply prune_objects_keys in E. lia.
 Qed.
 
 (* the ids handed out by a program, in order *)
@@ -225,25 +444,36 @@ Fixpoint handed_out (O : oracles) (d : doc) (ops : list op) : list oid :=
               end
   end.
 
-Lemma handed_out_above O : forall ops d id, In id (handed_out O d ops) -> (d_max_id d < fst id)%N.
+(* between two renumberings the cursor never moves backwards *)
+Fixpoint no_renumber (ops : list op) : Prop :=
+  match ops with [] => True | o :: r => is_renumber o = false /\ no_renumber r end.
+
+Lemma handed_out_above O : forall ops d id,
+  no_renumber ops -> prog_dom O d ops -> In id (handed_out O d ops) -> (d_max_id d < fst id)%N.
 Proof.
-  induction ops as [|o ops IH]; intros d id H; cbn [handed_out] in H; [destruct H|].
-  pose proof (step_max_mono O d o) as Hm.
+  induction ops as [|o ops IH]; intros d id NR P H; cbn [handed_out] in H; [destruct H|].
+  destruct NR as [NR1 NR2]. destruct P as [P1 P2].
+  destruct (step_kx O d o NR1 P1) as [_ [Hm _]].
   destruct (step O d o) as [d' r] eqn:E. cbn [fst snd] in *.
-  destruct r; try (apply IH in H; lia).
-  destruct H as [<-|H]; [|apply IH in H; lia].
+  assert (Hrest : In id (handed_out O d' ops) -> (d_max_id d < fst id)%N).
+  { intro Hin. specialize (IH d' id NR2 P2 Hin). lia. }
+  destruct r; try (apply Hrest; exact H).
+  destruct H as [<-|H]; [|apply Hrest; exact H].
   apply alloc_fresh in E. lia.
 Qed.
 
-(* across any interleaving with the other operations, no id is handed out twice *)
-Theorem alloc_no_collision O : forall ops d, NoDup (map fst (handed_out O d ops)).
+(* across any interleaving with the other operations, no id is handed out twice (renumbering
+   compacts the numbers and restarts the cursor, so the statement is per renumbering-free stretch) *)
+Theorem alloc_no_collision O : forall ops d,
+  no_renumber ops -> prog_dom O d ops -> NoDup (map fst (handed_out O d ops)).
 Proof.
-  induction ops as [|o ops IH]; intro d; cbn [handed_out]; [constructor|].
-  destruct (step O d o) as [d' r] eqn:E. cbn [fst snd].
-  destruct r; try apply IH.
-  cbn [map]. constructor; [|apply IH].
+  induction ops as [|o ops IH]; intros d NR P; cbn [handed_out]; [constructor|].
+  destruct NR as [NR1 NR2]. destruct P as [P1 P2].
+  destruct (step O d o) as [d' r] eqn:E. cbn [fst snd] in *.
+  destruct r; try (apply IH; assumption).
+  cbn [map]. constructor; [|apply IH; assumption].
   intro Hin. apply in_map_iff in Hin. destruct Hin as [y [Ey Hy]].
-  apply handed_out_above in Hy. apply alloc_fresh in E. lia.
+  apply handed_out_above in Hy; try assumption. apply alloc_fresh in E. lia.
 Qed.
 
 (* ---------- frames of the allocation operations ---------- *)
